@@ -505,6 +505,8 @@ func (ex *Exec) notePC(t *smt.Term, at int) {
 	ex.pcLits[t] = at
 }
 
+var noModelCache = os.Getenv("VERIF_MODELCACHE") == "" // fetching models (get-value) after every sat answer costs more than it saves
+
 var debugLits = os.Getenv("VERIF_CHECKLITS") != ""
 
 func litKey(t *smt.Term) *smt.Term {
@@ -544,6 +546,10 @@ func (ex *Exec) pcKnows(c *smt.Term) int {
 
 // feasibleM is feasible() that also refreshes the cached model when the answer is sat.
 func (ex *Exec) feasibleM(t *smt.Term) smt.Result {
+	if noModelCache {
+		ex.pendingEval = nil
+		return ex.feasible(t)
+	}
 	terms := make([]*smt.Term, len(ex.inputs))
 	for i, iv := range ex.inputs {
 		terms[i] = iv.T
